@@ -21,9 +21,17 @@ class Deadlock(Exception):
 
 
 class Sched:
-    def __init__(self, n, switches=None, wait_s=90.0):
+    def __init__(self, n, switches=None, wait_s=90.0, timeouts=()):
         self.n = n
         self.sw = dict(switches or {})
+        # the OTHER input of a schedule: which conditional acquires lose.  ``lock.acquire(timeout=t)`` on a lock another thread holds has
+        # two outcomes - the holder releases first (True) or the timeout fires first (False: the holder is parked longer than t, which in
+        # logical time is always possible).  Such contested timed acquires are numbered 1, 2, ... in execution order (``tacq``); the ones
+        # whose number is in ``timeouts`` return False, the others wait like a blocking acquire.
+        self.to = frozenset(timeouts)
+        self.tacq = 0
+        self.cond_log = []       # (ordinal or 0, thread, form, outcome) of every conditional acquire that found the lock taken
+        self.lock_forms = {}     # how the code under test took its locks: form -> count
         self.go = [threading.Lock() for _ in range(n)]
         for g in self.go:
             g.acquire()
@@ -118,6 +126,16 @@ class Sched:
     def unblock_all(self):
         self.blocked = [False] * self.n
 
+    def form(self, name):
+        self.lock_forms[name] = self.lock_forms.get(name, 0) + 1
+
+    def contested(self, me):
+        """thread `me` waits with a timeout for a lock somebody else holds: does the timeout fire first?"""
+        self.tacq += 1
+        fires = self.tacq in self.to
+        self.cond_log.append((self.tacq, me, 'timeout', 'timed-out' if fires else 'waits'))
+        return fires
+
 
 class SLock:
     """Scheduler-aware stand-in for threading.Lock / RLock (context-manager protocol and acquire/release): a thread that finds it
@@ -127,14 +145,18 @@ class SLock:
         self.s, self.me_of, self.owner, self.name = sched, me_of, None, name
         self.reentrant, self.depth = reentrant, 0
 
-    def __enter__(self):
+    def __enter__(self, _form='with'):
         me = self.me_of()
+        self.s.form(_form)
         if self.reentrant and self.owner == me:
             self.depth += 1
             return self
         while self.owner is not None:
             self.s.emit(me, 'blocked')
             self.s.block(me)
+        return self._take(me)
+
+    def _take(self, me):
         self.owner = me
         self.depth = 1
         self.s.emit(me, 'acquire')
@@ -153,16 +175,71 @@ class SLock:
         return False
 
     def acquire(self, blocking=True, timeout=-1):
-        if not blocking and self.owner is not None and not (self.reentrant and self.owner == self.me_of()):
-            return False
+        """threading.Lock.acquire: blocking (the `with` statement), non-blocking (False at once when the lock is taken) and timed: a timed
+        acquire that finds the lock taken by another thread is a CHOICE of the schedule (Sched.contested) - wait for the holder like a
+        blocking acquire and return True, or return False without the lock (the time-out fired first)."""
+        if timeout is None:
+            raise TypeError("'NoneType' object cannot be interpreted as a timeout")
+        if not blocking and timeout != -1:
+            raise ValueError("can't specify a timeout for a non-blocking call")
+        if blocking and timeout != -1 and timeout < 0:
+            raise ValueError('timeout value must be a non-negative number')
+        if blocking and timeout == -1:
+            self.__enter__('acquire()')
+            return True
+        me = self.me_of()
+        s = self.s
+        s.form('acquire(blocking=False)' if not blocking else 'acquire(timeout)')
+        if self.reentrant and self.owner == me:
+            self.depth += 1
+            return True
+        while self.owner is not None:
+            if not blocking or timeout == 0 or self.owner == me:
+                # no waiting (or waiting for oneself): the outcome is fixed by where the preemptions fall
+                s.cond_log.append((0, me, 'nonblocking' if not blocking else 'timeout', 'refused'))
+                s.emit(me, 'refused')
+                return False
+            if s.contested(me):
+                s.emit(me, 'timeout')
+                return False
+            s.emit(me, 'blocked')
+            s.block(me)
+        self._take(me)
+        return True
+
+    def release(self):
+        if self.owner is None:
+            raise RuntimeError('release unlocked lock')
+        self.__exit__(None, None, None)
+
+    def locked(self):
+        return self.owner is not None
+
+
+class TimedIgnoredSLock(SLock):
+    """The mutant for the self-test of the time-out dimension (and the shape of Ll.timed_ignored_witness): code that takes the lock with
+        acquired = lock.acquire(timeout=t); try: <critical section> finally: if acquired: lock.release()
+    i.e. a timed acquire whose result decides only whether to release.  Put in place of the router's lock(s): `with lock:` then means that."""
+
+    def __init__(self, *a, **kw):
+        SLock.__init__(self, *a, **kw)
+        self.got = {}
+
+    def __enter__(self, _form='with'):
+        self.got[self.me_of()] = SLock.acquire(self, timeout=0.25)
+        return self
+
+    def __exit__(self, *a):
+        if self.got.pop(self.me_of(), False):
+            SLock.__exit__(self, *a)
+        return False
+
+    def acquire(self, blocking=True, timeout=-1):
         self.__enter__()
         return True
 
     def release(self):
         self.__exit__(None, None, None)
-
-    def locked(self):
-        return self.owner is not None
 
 
 class NoLock:
@@ -279,7 +356,7 @@ class LockPatch:
             lk = LazySLock(self)
             self.created.append(lk)
             return lk
-        cls = SLock if self.mode == 'lock' else NoLock
+        cls = {'lock': SLock, 'timedignored': TimedIgnoredSLock}.get(self.mode, NoLock)
         lk = cls(self.sched, self.me_of, name='lock%d' % len(self.created), reentrant=reentrant)
         self.created.append(lk)
         return lk
